@@ -350,9 +350,14 @@ class SparselyBin(Factory, Container):
                 self.nanflow.fill(datum, weight)
             else:
                 b = self.bin(q)
-                if b not in self.bins:
-                    self.bins[b] = self.value.copy()
-                self.bins[b].fill(datum, weight)
+                sub = self.bins.get(b)
+                if sub is None:
+                    sub = self.value.copy()
+                    sub.fill(datum, weight)
+                    # a new bin appears only if its fill did not raise (for rollback)
+                    self.bins[b] = sub
+                else:
+                    sub.fill(datum, weight)
             # no possibility of exception from here on out (for rollback)
             self.entries += weight
 
